@@ -53,6 +53,14 @@ SrcMapProg(ks, sigma, tv) ==
    edges |-> [t \in 1..Len(sigma) |-> [s |-> sigma[t], sv |-> "x", t |-> t, tv |-> tv, w |-> WeightOf(t), tm |-> FALSE]]]
 DupGap(n, at) == [t \in 1..n |-> IF t = at + 1 THEN at ELSE t]          \* source at feeds targets at and at+1, source at+1 nothing
 SrcMaps(n) == {DupGap(n, 1), DupGap(n, n \div 2), [t \in 1..n |-> IF t = 2 THEN 3 ELSE IF t = 3 THEN 2 ELSE IF t = 5 THEN 4 ELSE t]}
+(* edges whose template reads a second variable given as a path (w * (source - x_ref)): one or two such edges over n nodes *)
+RefEdge(s, t, r, q) == [s |-> s, sv |-> "x", t |-> t, tv |-> "u", w |-> WeightOf(q), tm |-> FALSE, ref |-> r]
+RefProgs(ns, pats) ==
+  UNION { { [nodes |-> [i \in 1..n |-> MkNode(KindPattern(n, pat)[i], i)], edges |-> es] :
+              pat \in pats,
+              es \in { <<RefEdge(e[1], e[2], e[3], 1)>> : e \in (1..n) \X (1..n) \X (1..n) }
+                     \cup { <<RefEdge(e[1], e[2], e[3], 1), RefEdge(f[1], f[2], f[3], 2)>> : e \in (1..n) \X (1..n) \X (1..n), f \in (1..n) \X (1..n) \X (1..n) } }
+          : n \in ns }
 C04Progs(ns) ==
   UNION { { PermProg(KindPattern(n, pat), pi, tv) : pi \in Perms(n), pat \in {<<"L">>, <<"L", "S">>}, tv \in {"u", "v"} } : n \in ns }
   \cup UNION { { SrcMapProg(KindPattern(n, <<"L">>), sg, tv) : sg \in SrcMaps(n), tv \in {"u", "v"} } : n \in {m \in ns : m >= 5} }
